@@ -258,9 +258,13 @@ func (c *rapidContext) watchEvents(events <-chan supvmodel.Event) {
 		// At the moment we only get termination events.
 		// When their are other event types then we would need to be selective,
 		// about what we send to handleShutdownEvent().
+		// Cancel the flows before the exit is recorded: recording it lets a shutdown
+		// in progress return, after which the reset clears and re-arms the barriers
+		// for the next generation. A cancellation issued after that point would hit
+		// the new generation instead of the one this process belonged to.
+		c.registrationService.CancelFlows(err)
 		c.shutdownContext.handleProcessExit(*termination)
 		verifhook.Point("watchEvents.exitRecorded")
-		c.registrationService.CancelFlows(err)
 	}
 }
 
